@@ -507,6 +507,17 @@ def judge_selection(ctx, flow, caller, node, cand, label):
         bl_ = ctx.res.bindings(caller).get(it_expr.id, [])
         if len(bl_) == 1 and bl_[0][0] == "value":
             it_expr = bl_[0][1]          # candidates = sized(...); for c in candidates
+    if not size_ok and isinstance(it_expr, (ast.ListComp, ast.GeneratorExp)) and len(it_expr.generators) == 1:
+        # candidates = [loc for loc, size in index[name] if size == recorded]: the sizes were compared where the list was made
+        gen_ = it_expr.generators[0]
+        gnames = {x.id for x in ast.walk(gen_.target) if isinstance(x, ast.Name)}
+        for cond in gen_.ifs:
+            if isinstance(cond, ast.Compare) and len(cond.ops) == 1 and isinstance(cond.ops[0], ast.Eq):
+                sides = [cond.left, cond.comparators[0]]
+                for a_, o_ in (sides, sides[::-1]):
+                    if isinstance(a_, ast.Name) and a_.id in gnames and not any(isinstance(x, ast.Name) and x.id in gnames for x in ast.walk(o_)) \
+                            and any(y[0] == "ext" and y[1] == "pyben.load" for y in walk_terms(flow.term(o_, caller))):
+                        size_ok = True
     via = [t for c_ in ast.walk(it_expr) if isinstance(c_, ast.Call) for t in C.targets_of(ctx, caller, c_)]
     if not size_ok and via:
         # the candidates are handed out by a package function (a generator that may already have compared the sizes)
